@@ -688,9 +688,9 @@ class DiscreteFourierTransformInverse(DiscreteFourierTransformBase):
         effort = flags[0] if flags else 'measure'
 
         direction = 'forward' if self.sign == '-' else 'backward'
-        if self.halfcomplex and len(self.axes) > 1:
-            # FFTW overwrites the input of multi-dimensional
-            # complex-to-real transforms
+        if self.halfcomplex:
+            # FFTW overwrites the input of complex-to-real transforms
+            # (always for several axes, depending on the plan for one axis)
             x = x.copy()
         real_out = not self.halfcomplex and is_real_dtype(out.dtype)
         if real_out:
